@@ -497,6 +497,17 @@ def _isclose(e, st, args, kw, n):
 @method('reshape')
 def _reshape(e, st, obj, args, kw, n):
     shp = tuple(args[0]) if len(args) == 1 and isinstance(args[0], (tuple, list)) else tuple(args)
+    if isinstance(obj, Arr) and shp == (-1,) and obj.ndim >= 1:
+        if obj.ndim == 1:
+            return obj
+        # flattening: modelled as a 1-D array of length size (contents not related to the original: safety contracts only)
+        e.note_assumed('ndarray.reshape(-1) of a contiguous array has prod(shape) elements (element values abstracted)')
+        size = z3.IntVal(1)
+        for d in obj.shape:
+            size = size * d
+        a = e.new_array(st, 'flat', [simp(size)], obj.ety, obj.dt)
+        st.pc.append(simp(size) >= 0)
+        return a
     if isinstance(obj, Arr) and obj.ndim == 2 and len(shp) == 2 and shp[0] == -1:
         c = conc_int(obj.shape[1])
         if c is not None and c == shp[1]:
@@ -559,3 +570,28 @@ def array_scalar_op(e, st, op, arr, sc, n):
     val = e.store_cast(val, new, st, n)
     st.pc.append(z3.ForAll([q], z3.Select(st.heap[new.base], q) == val, patterns=[z3.Select(st.heap[new.base], q)]))
     return new
+
+
+@builtin('numpy.sum')
+def _npsum(e, st, args, kw, n):
+    if isinstance(args[0], Arr):
+        e.note_assumed('numpy.sum of an array is an unspecified scalar of the element type (value abstracted)')
+        return SV(fresh('sum', sort_of('real' if args[0].ety == 'real' else args[0].ety)), 'real' if args[0].ety == 'real' else args[0].ety)
+    raise Unsupported('sum of non-array')
+
+
+@method('sum')
+def _msum(e, st, obj, args, kw, n):
+    if isinstance(obj, Arr) and not args and not kw:
+        return _npsum(e, st, [obj], {}, n)
+    raise Unsupported('sum with axis')
+
+
+@builtin('numpy.exp', 'numpy.log10', 'numpy.log', 'math.erfc', 'math.erf', 'numpy.cos', 'numpy.sin', 'numpy.conj')
+def _uninterp(e, st, args, kw, n):
+    """transcendental functions: uninterpreted (congruence only)"""
+    v = e.toreal(e.tosv(args[0])) if not isinstance(args[0], Arr) else None
+    if v is None:
+        raise Unsupported('elementwise transcendental on an array')
+    name = 'UF_' + (n.func.attr if isinstance(n.func, ast.Attribute) else getattr(n.func, 'id', 'f'))
+    return SV(z3.Function(name, z3.RealSort(), z3.RealSort())(simp(v.t)), 'real')
